@@ -281,15 +281,14 @@ Inductive la_probe :=
 | LaRaiseOnRead.         (* they succeed, a later la[k] raises TypeError *)
 
 Definition probe_la (la : json) (k : string) : la_probe :=
-  if negb (py_truthy la) then LaVal JNull            (* `if not la: la = {}` *)
-  else match la with
-       | JMap kvs => LaVal (match lookup k kvs with Some v => v | None => JNull end)
-       | JStr s => if is_substr k s then LaRaiseOnRead else LaRaiseNow
-       | JList l =>
-           if existsb (fun x => match x with JStr s => String.eqb s k | _ => false end) l
-           then LaRaiseOnRead else LaRaiseNow
-       | _ => LaRaiseNow
-       end.
+  (* `if not la or not isinstance(la, dict): la = {}` (58b6399): a recorded
+     value that is not a non-empty dict is absent; the probe can no longer
+     raise ([LaRaiseNow] / [LaRaiseOnRead] are kept for the shape of the
+     definitions only) *)
+  match la with
+  | JMap kvs => LaVal (match lookup k kvs with Some v => v | None => JNull end)
+  | _ => LaVal JNull
+  end.
 
 Definition read_la (p : la_probe) : comp json :=
   match p with LaVal v => Ret v | _ => Exc VTypeError end.
@@ -399,12 +398,10 @@ Section Loops.
     | [], [] => O_match
     | _, _ =>
         if negb (Nat.eqb (List.length tl) (List.length al)) then O_false else
-        if negb (py_truthy la) then list_loop tl al [] else
+        (* `if not isinstance(la, (list, tuple)): la = None` (58b6399) *)
         match la with
         | JList l => list_loop tl al l
-        | JStr s => list_loop tl al (map JStr (utf8_chars s))
-        | JMap _ => O_raise VKeyError       (* la[0] on a dict with str keys *)
-        | _ => O_raise VTypeError           (* len() of a number / True *)
+        | _ => list_loop tl al []
         end
     end.
 End Loops.
